@@ -170,7 +170,7 @@ theorem parser_refines_spec (c : PCfg) (raws : List Raw) (s : PState) (cur : Int
               have hb : itemCmds.isBracketOrPingB r.cmd = true := by
                 rcases hbr with h | h <;> rw [h] <;> decide
               simp only [hbr, ↓reduceIte]
-              by_cases h3 : s.bypass = true ∧ closesTxn s r.cmd = false
+              by_cases h3 : s.bypass = true ∧ passBracket s r.cmd = false
               · simp only [h3, and_self, ↓reduceIte]
                 have := ih s cur hinv hsel'
                 rw [h3.1] at this; exact this
@@ -180,7 +180,7 @@ theorem parser_refines_spec (c : PCfg) (raws : List Raw) (s : PState) (cur : Int
                 | some a =>
                   simp only
                   rw [itemCmds_cons_bracket _ _ hb]
-                  have := ih (sent s r.cmd (if closesTxn s r.cmd = true then s.lastSent else r.off)) cur
+                  have := ih (sent s r.cmd (if passBracket s r.cmd = true then s.lastSent else r.off)) cur
                     (by rw [sent_currentDB]; exact hinv) hsel'
                   rw [sent_bypass] at this
                   exact this
@@ -188,7 +188,8 @@ theorem parser_refines_spec (c : PCfg) (raws : List Raw) (s : PState) (cur : Int
                 simp only [itemCmds.isBracketOrPingB, Bool.or_eq_false_iff, beq_eq_false_iff_ne, ne_eq]
                 exact ⟨⟨hp, fun h => hbr (Or.inl h)⟩, fun h => hbr (Or.inr h)⟩
               have hne : r.cmd ≠ bExec := fun h => hbr (Or.inr h)
-              have hct : closesTxn s r.cmd = false := by simp [closesTxn, hne]
+              have hnm : r.cmd ≠ bMulti := fun h => hbr (Or.inl h)
+              have hct : passBracket s r.cmd = false := by simp [passBracket, hne, hnm]
               simp only [hbr, ↓reduceIte, hct, and_true, Bool.false_eq_true]
               by_cases hbp : s.bypass = true
               · simp only [hbp, ↓reduceIte]
